@@ -27,6 +27,8 @@ Hypothesis HDict : forall kvs, Forall (fun kv => P (fst kv) /\ P (snd kv)) kvs -
 Hypothesis HIndex : forall a i, P a -> P i -> P (EIndex a i).
 Hypothesis HTupleAt : forall a n, P a -> P (ETupleAt a n).
 Hypothesis HCast : forall b e, P e -> P (ECast b e).
+Definition opt_P (o : option expr) : Prop := match o with Some c => P c | None => True end.
+Hypothesis HComp : forall v proj iter cond, P proj -> P iter -> opt_P cond -> P (EComp v proj iter cond).
 Fixpoint expr_ind' (e : expr) : P e :=
   match e with
   | ELit b => HLit b | EVar n => HVar n
@@ -44,6 +46,7 @@ Fixpoint expr_ind' (e : expr) : P e :=
   | EIndex a i => HIndex a i (expr_ind' a) (expr_ind' i)
   | ETupleAt a n => HTupleAt a n (expr_ind' a)
   | ECast b a => HCast b a (expr_ind' a)
+  | EComp v proj iter cond => HComp v proj iter cond (expr_ind' proj) (expr_ind' iter) (match cond as c0 return opt_P c0 with Some c => expr_ind' c | None => I end)
   end.
 End ExprInd.
 
@@ -135,10 +138,21 @@ Proof.
     + intros H. inversion H; subst. exists x. split; auto. apply in_map_iff. exists l0. split; auto. apply IH. auto.
 Qed.
 
+Lemma env_ok_upd G R v te re : env_ok G R -> has_type re te = true -> env_ok (upd G v (Some te)) (upd R v re).
+Proof.
+  intros He Hh n t. unfold upd. destruct (Nat.eqb n v); [intros H; injection H as <-; exact Hh | apply He].
+Qed.
+Lemma iter_sound ri ti te re : has_type ri ti = true -> iter_ty ti = Some te -> In re (iter_rty ri) -> has_type re te = true.
+Proof.
+  intros Hh Hi Hin. destruct ti as [[]|t1|k v| | |]; simpl in Hi; try discriminate; injection Hi as <-.
+  - destruct ri as [|es| |]; simpl in Hh; try discriminate. rewrite forallb_forall in Hh. auto.
+  - destruct ri as [| |ks vs|]; simpl in Hh; try discriminate. apply andb_true_iff in Hh. destruct Hh as [Hk _]. rewrite forallb_forall in Hk. auto.
+Qed.
+
 Theorem soundness : forall e G R t, env_ok G R -> infer' G e = Some t -> guard' G e = true ->
   forall r, In r (dyn R e) -> has_type r t = true.
 Proof.
-  induction e as [b|n|o e IH|o a b IHa IHb|a b IHa IHb|e IH|a b IHa IHb|a b IHa IHb|c a b IHc IHa IHb|es IH|es IH|kvs IH|a i IHa IHi|a n IHa|b e IH] using expr_ind';
+  induction e as [b|n|o e IH|o a b IHa IHb|a b IHa IHb|e IH|a b IHa IHb|a b IHa IHb|c a b IHc IHa IHb|es IH|es IH|kvs IH|a i IHa IHi|a n IHa|b e IH|v proj iter cond IHp IHi IHc] using expr_ind';
     intros G R t Henv Hinf Hg r Hr.
   - simpl in *. destruct Hr as [<-|[]]. injection Hinf as <-. simpl. apply base_eqb_refl.
   - simpl in *. destruct Hr as [<-|[]]. apply Henv. exact Hinf.
@@ -284,4 +298,15 @@ Proof.
   - (* ECast *)
     cbn [infer dyn] in *. destruct (infer' G e); try discriminate. destruct (dyn R e); [destruct Hr|]. destruct Hr as [<-|[]].
     destruct b; try discriminate; injection Hinf as <-; reflexivity.
+  - (* EComp *)
+    cbn [infer guard dyn] in *. destruct Hr as [<-|[]]. apply andb_true_iff in Hg. destruct Hg as [Hgi Hg].
+    destruct (infer' G iter) as [ti|] eqn:Ei; try discriminate. destruct (iter_ty ti) as [te|] eqn:Et; try discriminate.
+    apply andb_true_iff in Hg. destruct Hg as [Hgp _].
+    destruct (match cond with Some c => infer' (upd G v (Some te)) c | None => Some (TB BBool) end); try discriminate.
+    destruct (infer' (upd G v (Some te)) proj) as [tp|] eqn:Ep; try discriminate. injection Hinf as <-.
+    cbn [has_type]. apply forallb_forall. intros x Hx.
+    apply in_flat_map in Hx. destruct Hx as [ri [Hri Hx]]. apply in_flat_map in Hx. destruct Hx as [re [Hre Hx]].
+    pose proof (IHi G R ti Henv Ei Hgi ri Hri) as Hti.
+    pose proof (iter_sound ri ti te re Hti Et Hre) as Hte.
+    exact (IHp (upd G v (Some te)) (upd R v re) tp (env_ok_upd G R v te re Henv Hte) Ep Hgp x Hx).
 Qed.
